@@ -7,20 +7,23 @@
    rule-level tie add the panic sites (n - 1, n - k, arithmetic overflow: the harness builds
    the library with overflow checks).  No proofs here.
 
-   Every rule takes a [fixes] record; [as_written] (all flags off) is the code that exists and
-   is what the tie compares with the implementation.  Each flag switches one candidate repair
-   on (notes/fixes/C09-*.diff); the theorems of Proofs/ExtProofs.v say which flags a bound needs. *)
+   Every rule takes a [fixes] record of four switches. Since /repo 937818d4, 1f19b621, cce56f21 and
+   556af94a the code that exists has all four on: [as_written] is that rule set and is what the tie
+   compares with the implementation. [pre_fix] (all off) is the rule set of the tree BEFORE those
+   commits, kept only for the historical refutations. The theorems of Proofs/Ext*.v are stated for
+   every rule set and say which switches a bound needs. *)
 From Verif Require Export Sat.
 Local Open Scope N_scope.
 
 Record fixes := mkFixes {
-  fx_thresh : bool;   (* threshold: `i < k` instead of `i <= k` (top-k, not top-(k+1), satisfactions) *)
+  fx_thresh : bool;   (* threshold: `i < k` (on) / `i <= k` (off: top-(k+1) satisfactions) *)
   fx_dupif : bool;    (* cast_dupif: witness size + 2, count + 1 instead of size + 1, count + 2 *)
   fx_unc : bool;      (* pk_h with an uncompressed key: 66 bytes (push opcode + 65) instead of 65 *)
   fx_andv : bool      (* and_v: dissat_data = sat(l) ++ dissat(r), as the satisfier computes it *)
 }.
-Definition as_written : fixes := mkFixes false false false false.
-Definition all_fixed : fixes := mkFixes true true true true.
+Definition as_written : fixes := mkFixes true true true true.    (* the code that exists *)
+Definition pre_fix : fixes := mkFixes false false false false.   (* historical: before the four fix commits *)
+Definition all_fixed : fixes := as_written.
 
 (* ------------------------------------------------------------------ TimelockInfo *)
 Record tlinfo := mkTL { tl_csv_h : bool; tl_csv_t : bool; tl_cltv_h : bool; tl_cltv_t : bool; tl_comb : bool }.
@@ -126,8 +129,8 @@ Definition ext_multi (k : N) (uncs : list bool) : ext :=
   let n := N.of_nat (length uncs) in
   mkExt (num_cost k n + fold_right (fun (u : bool) a => (if u then 66 else 34) + a) 0 uncs + 1)
         true 1
-        (Some (mkSD (1 + 73 * k) (k + 1) (1 + 73 * k) n n))
-        (Some (mkSD (1 + k) (k + 1) (1 + k) n n)) tl_new 0.
+        (Some (mkSD (1 + 73 * k) (k + 1) (1 + 73 * k) (n + 2) n))
+        (Some (mkSD (1 + k) (k + 1) (1 + k) (n + 2) n)) tl_new 0.
 
 Definition ext_multi_a (k n : N) : ext :=
   mkExt (num_cost k n + 33 * n + (n - 1) + 1) true 0
@@ -272,15 +275,28 @@ Definition th_sat_data (strict : bool) (k : N) (v0 : list sdpair) : option satda
 Definition th_dissat_data (subs : list ext) : option satdata :=
   fold_left (fun acc sub => opt_zip_with sd_concat_v acc (dissat_data sub)) subs (Some (mkSD 0 0 0 0 0)).
 
+(* exec_stack_ub: 2 (running sum and k before EQUAL), and every child but the first above the sum *)
+Definition osd_estack (o : option satdata) : N := match o with Some d => sd_estack d | None => 0 end.
+Fixpoint th_stack_ub (first : bool) (acc : N) (subs : list ext) : N :=
+  match subs with
+  | [] => acc
+  | s :: r =>
+    th_stack_ub false
+      (N.max acc (N.max (osd_estack (sat_data s)) (osd_estack (dissat_data s)) + (if first then 0 else 1))) r
+  end.
+Definition sd_raise_estack (ub : N) (d : satdata) : satdata :=
+  mkSD (sd_wsize d) (sd_wcount d) (sd_ssig d) (N.max (sd_estack d) ub) (sd_eops d).
+
 Definition ext_threshold (fx : fixes) (k : N) (subs : list ext) : ext :=
   let strict := fx_thresh fx in
+  let ub := th_stack_ub true 2 subs in
   let n := N.of_nat (length subs) in
   let pkc := fold_left (fun a s => a + pk_cost s) subs (1 + script_num_size k) in
   let ops := fold_left (fun a s => a + static_ops s) subs 0 in
   let h := fold_left (fun a s => N.max a (tree_height s)) subs 0 in
   mkExt (pkc + n - 1) true (ops + 1 + (n - 1))
-        (th_sat_data strict k (map (fun s => (sat_data s, dissat_data s)) subs))
-        (th_dissat_data subs)
+        (option_map (sd_raise_estack ub) (th_sat_data strict k (map (fun s => (sat_data s, dissat_data s)) subs)))
+        (option_map (sd_raise_estack ub) (th_dissat_data subs))
         (tl_combine_threshold k (map timelock_info subs))
         (h + 1).
 
@@ -383,7 +399,7 @@ Definition tr_leaf_weight (depth ssz elems satsz : N) : N :=
   let cb := control_block_len depth in
   (varint_len (elems + 1) - varint_len 0) + satsz + varint_len ssz + ssz + varint_len cb + cb.
 (* leaves: (depth, script_size, Some (elems, satsz)) in iteration order; .filter_map(..).max() *)
-Definition tr_tree_weight (leaves : list (N * N * option (N * N))) : option N :=
+Definition tr_leaves_weight (leaves : list (N * N * option (N * N))) : option N :=
   fold_left (fun (acc : option N) (l : N * N * option (N * N)) =>
                match l with
                | (d, ssz, Some (el, sz)) =>
@@ -391,6 +407,13 @@ Definition tr_tree_weight (leaves : list (N * N * option (N * N))) : option N :=
                  Some (match acc with Some a => N.max a w | None => w end)
                | (_, _, None) => acc
                end) leaves None.
+
+(* since /repo 265ff19b the key-path spend is always counted, so the result is never an error *)
+Definition tr_tree_weight (leaves : list (N * N * option (N * N))) : option N :=
+  Some (match tr_leaves_weight leaves with
+        | Some w => N.max w tr_keyspend_weight
+        | None => tr_keyspend_weight
+        end).
 
 Inductive dkind := DBare | DSh | DWsh | DShWsh.
 (* single-miniscript descriptors, from the miniscript's figures *)
